@@ -311,6 +311,18 @@ func (t *State) verifyXuperSign(tx *pb.Transaction, digestHash []byte) (bool, ma
 			return false, nil, errors.New("XuperSign: address and public key not match")
 		}
 	}
+	if len(pubkeys) > 1 {
+		// the unified verifier dispatches on the type the signature declares and checks single-key schemes
+		// against pubkeys[0] only (a ring signature proves one unnamed member): only a multi-signature proves
+		// that EVERY listed key signed
+		var wrapper struct {
+			SigType    string
+			SigContent []byte
+		}
+		if err := json.Unmarshal(tx.GetXuperSign().GetSignature(), &wrapper); err != nil || wrapper.SigType != "MultiSig" {
+			return false, nil, errors.New("XuperSign: several signers need a multi-signature")
+		}
+	}
 	ok, err := t.sctx.Crypt.VerifyXuperSignature(pubkeys, tx.GetXuperSign().GetSignature(), digestHash)
 	if err != nil || !ok {
 		t.log.Warn("XuperSign: signature verify failed", "error", err)
